@@ -14,11 +14,11 @@ LEVEL = "exploration"
 RULE = (
     "Structured concurrent programs: a parent nested 0-2 actions deep starts 2-4 workers - threads (started bare, through "
     "preserve_context, or through serialize_task_id/continue_task) or asyncio tasks (inheriting the creator's action, with "
-    "nested gather); workers may enter the context()/run() of the parent's own action or of one shared action, and may "
+    "nested gather, the sub-tasks optionally created inside R.run(...) of a fresh action R); workers may enter the context()/run() of the parent's own action or of one shared action, and may "
     "enter an action object the parent created; - each running a generated nest of with / context()+finish / finish-inside / start_task actions and "
     "messages, joined before the parent's action ends. Every program is executed under 2-4 generated plans (which worker "
-    "runs how many steps: at logging-call boundaries for threads, at await points for coroutines; harness-owned "
-    "scheduler). Oracles: in every worker at every step current_action() IS the top of the worker's own stack (None at "
+    "runs how many steps: at logging-call boundaries for threads - in half of the thread cases additionally at the moment a "
+    "(blocking) destination is handed a message - and at await points for coroutines; harness-owned scheduler). Oracles: in every worker at every step current_action() IS the top of the worker's own stack (None at "
     "the start of a bare thread, the creator's action at the start of a task), identical before being parked and after "
     "being resumed; the observed forest (independent reconstruction; siblings as sets, per-worker order kept) equals the "
     "model and is identical for every plan of the same program; C02's invariants hold on each run. Non-trivial: >= 2 "
@@ -73,6 +73,10 @@ def classify(case, info):
         labels.append("parent-context-entered-by-worker")
     if '"g":' in text and case["mode"] == "async":
         labels.append("nested-gather")
+        if '"via": "run"' in text:
+            labels.append("tasks-created-inside-run()")
+    if case.get("dest_yield"):
+        labels.append("threads-also-switch-while-a-destination-is-called")
     nontrivial = holding(case) >= 2 and info["switches"] >= 2
     return nontrivial, sorted(set(labels))
 
@@ -90,7 +94,7 @@ def bodies(mode, depth=2):
         options.append(st.tuples(below, st.sampled_from(["context", "context", "run"])).map(lambda p: {"p": p[0], "how": p[1]}))
         if mode == "async":
             if d >= 2:
-                options.append(st.lists(level(d - 2), min_size=2, max_size=2).map(lambda bs: {"g": bs}))
+                options.append(st.tuples(st.lists(level(d - 2), min_size=2, max_size=2), st.sampled_from(["plain", "run"])).map(lambda p: {"g": p[0], "via": p[1]}))
         return st.lists(st.one_of(*options), min_size=1, max_size=3)
 
     return level(depth)
@@ -103,8 +107,9 @@ def strategy(mode):
         return st.builds(lambda start, pre, body: {"start": start, "pre": pre, "body": body}, st.sampled_from(starts), st.sampled_from([False, False, True]), bodies(mode))
 
     return st.builds(
-        lambda outer, shared, plans, workers: {"mode": mode, "outer": outer, "shared": shared, "plans": plans, "workers": workers},
+        lambda outer, shared, dy, plans, workers: {"mode": mode, "outer": outer, "shared": shared, "dest_yield": dy and mode == "thread", "plans": plans, "workers": workers},
         st.integers(0, 2),
+        st.booleans(),
         st.booleans(),
         st.lists(sched.plans(max_segments=10, max_steps=6, workers=4, min_segments=3), min_size=2, max_size=4),
         st.lists(worker(), min_size=2, max_size=4),
